@@ -43,7 +43,13 @@ func (f *Field) resolve(file *File) error {
 }
 
 func (f *Field) resolved() error {
-	ref := f.Type.Ref
+	// Check the element type of (nested) lists as well
+	typ := f.Type
+	for typ.Kind == KindList && typ.Element != nil {
+		typ = typ.Element
+	}
+
+	ref := typ.Ref
 	if ref == nil {
 		return nil
 	}
